@@ -24,7 +24,7 @@ class Ref:
 
     def is_entry(self, i):
         nd = self.spec["nodes"][i]
-        return self.registry and (nd["k"] == "src" or bool(nd.get("stored")))
+        return self.registry and ((nd["k"] == "src" and not nd.get("foreign")) or bool(nd.get("stored")))
 
     def raw(self, i):
         """The value node i computes (what a non-source store must hold afterwards)."""
@@ -54,6 +54,8 @@ class Ref:
                 self.force(d)
             v = self.world.nodes[i].value
         elif k == "src":
+            if nd.get("foreign"):
+                raise RefFailure(i)
             for d in nd.get("xdeps", []):
                 self.force(d)
             if nd.get("alias"):
@@ -107,7 +109,8 @@ class Ref:
 
 
 def entries(spec):
-    return {i for i, nd in enumerate(spec["nodes"]) if nd["k"] == "src" or nd.get("stored")}
+    return {i for i, nd in enumerate(spec["nodes"])
+            if (nd["k"] == "src" and not nd.get("foreign")) or nd.get("stored")}
 
 
 def out_of_date(spec, times, fresh=None):
